@@ -3,6 +3,7 @@ C15 model driver. Requests (one per line):
   gauss <dim> <order|max>    table as the model resolves it, evaluated in IEEE doubles
   cell <dim> <order|max>     the same after the model's `toUnitCell`
   corners <dim>
+  l1rule <L1Mode name> <dim>  the unit-cell rule transport_density sums over in that mode
   check <dim> <order>        the kernel-evaluated obligation, for diagnostics (1/0)
 Response: `!Error` or `<npts> <nwts> | x x .. ; x x .. | w w ..` (coordinates of a point separated by spaces,
 points by `;`; each number is the IEEE-754 bit pattern of the double, as a decimal integer). Floats are only the *view* of the symbolic table; all exact reasoning is in DarsiaProps.C15.
@@ -44,6 +45,14 @@ def dispatch : List String → Option String
   | ["cell", dim, o] => do
     let dim ← dim.toNat?; let o ← parseOrder o
     pure (showE (gaussM Gen.maxOrder Gen.rule dim o) Rule.toUnitCell)
+  | ["l1rule", mode, dim] => do
+    let dim ← dim.toNat?
+    let mode ← match mode with
+      | "RAVIART_THOMAS" => some L1Mode.raviartThomas
+      | "CONSTANT_SUBCELL_PROJECTION" => some L1Mode.constantSubcell
+      | "CONSTANT_CELL_PROJECTION" => some L1Mode.constantCell
+      | _ => none
+    pure (showE (l1Rule Gen.maxOrder Gen.rule Gen.corners Gen.l1Source mode dim))
   | ["corners", dim] => do
     let dim ← dim.toNat?
     pure (showE (Gen.corners dim))
